@@ -61,32 +61,55 @@ RULE = ("the multi-treap histories of C03, including move = remove_at followed b
         "FAMILY HISTORIES of 40-300 (quick) / up to 3000 (thorough) nodes with native priorities and of 64-200 nodes with increasing / decreasing / equal / tiny / boundary priorities: sorted appends, "
         "front inserts, middle inserts, alternating ends, merge-building from one-node treaps, sorted-set building through split_by, scattered insert + remove_at, k treaps filled round robin and concatenated, "
         "blocks started from Treap::default() / Treap::new(), split-and-swap rotations; split_by with NON-MONOTONE predicates (decided by model_check; the list specification is silent there); "
+        "FAULTS IN USER CODE INSIDE A LIBRARY CALL (op E, harness/crates/c03/src/fault.rs): on a throw-away treap (never observed afterwards) an item type with switchable callbacks makes exactly "
+        "one insert_at (also through the building blocks) / from_item + merge / split_at / split_by / remove_at / collect / first / last end abnormally - the first update() the NEW node of insert_at takes part in, "
+        "or the k-th update / push / size call or split_by predicate call, panics - (a) on a worker thread that dies, (b) under catch_unwind on the line's own thread, (c) while another thread is creating "
+        "nodes (either side); or the callback RE-ENTERS the library (creates nodes; builds and collects a treap with insert_at; does so on a thread it spawns and joins) and returns or panics afterwards; "
+        "one probe draw follows, then the history goes on (events at the start / in the middle of the family histories of 6-40 (quick) / up to 3000 (thorough) nodes, one to three events at random "
+        "places of random native histories, with burnt draws and creations on other threads): the draws made before and during the abnormal exit COUNT, the probe and every later priority are the "
+        "next draws of the one process-wide stream (decided by model_check / spec_check like burnt draws); a line with an event runs in a child process under a watchdog, a line that does not come "
+        "back (a callback re-entering the library while the library holds its generator lock) is the observation H, which nothing accepts; "
         "observed = full final shape of every live treap through the "
         "public fields left/right/priority/item + final collect(); non-trivial = some final treap has >= 3 nodes and the history "
         "contains a split or merge; "
         "implementation-level search (extra), on the debug AND the release executor: families append, front, rotate (split-and-swap), appendremove, deque, middle, mergebuild, setbuild (ascending / scattered keys), "
         "splitany (stateful non-monotone split_by), randremove, nodeapi (building blocks only), roundrobin k (strided subsequences of the stream in one treap), blocks (Treap::default / new), "
-        "threads T x m (sequential and concurrent; pieces moved to one thread and merged), doubling (t = merge(t, t.clone()), run only when Treap<Item>: Clone exists) up to 10^6 (1.1*10^6: past 2^20 draws) nodes with the "
+        "threads T x m (sequential and concurrent; pieces moved to one thread and merged), doubling (t = merge(t, t.clone()), run only when Treap<Item>: Clone exists) up to 10^6 (1.1*10^6: past 2^20 draws) nodes, "
+        "fault (22 events of the kinds above - quick - / the whole catalogue of 299 - thorough -, then 1500-3000 / up to 50000 sorted appends, front inserts, merge-building, alternating ends, middle inserts, rotations, "
+        "append + remove, set building on the main thread; time-out 20 s: a hang is a violation) with the "
         "generator's own priorities: at every power of two the exact invariant of the code on every edge (<= left, < right: the shape is the Cartesian tree), subtree sizes, every node still has the priority it was "
         "born with, height <= 3*floor(log2(n+1))+12 (failure probability < 3e-6 for independent uniform priorities, n <= 2^21; implies the bound 5*log2(n+1)+20 of c16_height_partial); the hash of ALL priorities drawn on the line "
-        "equals the hash of the modelled stream (bit for bit, up to 1.1*10^6 draws, both profiles; concurrent threads: as a multiset), and where the in-order sequence has a closed form the final height equals "
+        "equals the hash of the modelled stream (bit for bit, up to 1.1*10^6 draws, both profiles; concurrent threads: as a multiset; after a fault event: the hash of the continuation from the probe on), and where the in-order sequence has a closed form the final height equals "
         "the height of the Cartesian tree of the predicted priorities")
 TRUSTED = c03.TRUSTED + [
     "executor harness/crates/c03/src/fam.rs (family search: its own heap / size / born-priority / height checks and hashes; reads the priority of a new node back through the public fields)",
-    "checks/c16.py (prediction of the draw index of every node creation of a line, burnt draws and creations on other threads included; hash and Cartesian-tree height of the predicted stream for the search)"]
+    "checks/c16.py (prediction of the draw index of every node creation of a line, burnt draws and creations on other threads included; hash and Cartesian-tree height of the predicted stream for the search; "
+    "the number of draws a fault event must have consumed, checked against the probe priority in the event's token)",
+    "executor harness/crates/c03/src/fault.rs (item type with switchable panicking / re-entrant callbacks; its own checks of the helper thread's and the nested treap; "
+    "the child process + watchdog of main.rs for lines with an event)"]
 ASSUMPTIONS = c03.ASSUMPTIONS + [
     "the height bound is a statement about the randomness of the generator: proved only as finite computations for the named "
     "families (c16_height_partial) and searched on the implementation up to 1.1*10^6 nodes in both build profiles",
     "threads of one executor line are joined before the next creation on another thread, except in the concurrent thread family, where only the multiset of priorities is predicted",
-    "Treap::clone does not exist in the repository; the doubling family is compiled in through autoref specialisation and runs as soon as Treap<Item>: Clone holds"]
+    "Treap::clone does not exist in the repository; the doubling family is compiled in through autoref specialisation and runs as soon as Treap<Item>: Clone holds",
+    "after a panic inside an operation the treap involved is in an unspecified state and is never observed; what is checked is the rest of the process (generator, its lock, fresh treaps). "
+    "When an unrelated callback of insert_at panics the new node may or may not have been created yet: both draw counts are accepted (exactly one when the callback that fired involved the new node)",
+    "a hang is detected by time-out only (3 s for a history line in its child process, 20 s for a search line of at most 5000 nodes, 120 s above)"]
 
 
 
 def shrink(c):
     """c03's shrinking (drop operations, ...); then simpler fault events: no concurrent thread, catch_unwind instead of a
     worker thread, a smaller throw-away treap"""
-    out = c03.shrink(c)
     ops = c["ops"]
+    evs_only = [op for op in ops if op[0] == "E"]
+    if any(is_reentrant(op[1]) for op in evs_only) and len(ops) > len(evs_only) + 2:
+        # a re-entrant callback under a lock that the library holds does not come back: every candidate that still hangs costs the
+        # watchdog's time in both profiles, so the drastic candidates go first and alone (each event on its own, all events,
+        # the events and the first operations of the history)
+        head = [op for op in ops if op[0] != "E"][:2]
+        return [dict(c, ops=[op]) for op in evs_only if is_reentrant(op[1])][:3] + [dict(c, ops=evs_only), dict(c, ops=evs_only + head)]
+    out = c03.shrink(c)
     for i, op in enumerate(ops):
         if op[0] != "E":
             continue
@@ -1090,10 +1113,13 @@ MANIFEST = {
             "and the hash of every priority drawn against the modelled stream (bit for bit; past 2^20 draws; concurrent threads as a multiset). "
             "Tied to the code on every run through the public node fields (full shape, priorities, items), including nodes created on other threads "
             "(one process-wide stream), through TreapNode::new directly, after burnt draws (stream offsets up to 10^6, the first 32-bit collision of the stream inside the real insert_at), "
-            "family histories up to 300 (quick) / 3000 (thorough) nodes and split_by with non-monotone predicates.",
+            "family histories up to 300 (quick) / 3000 (thorough) nodes and split_by with non-monotone predicates; and AFTER A FAULT IN USER CODE inside a library call (an item whose update / push / size or "
+            "split_by predicate panics in the middle of insert_at / merge / split / remove_at / collect / first / last - on a worker thread that dies, under catch_unwind, while another thread creates nodes - or "
+            "re-enters the library from the callback): the probe drawn right after the event and every priority of the treaps built afterwards are the next draws of the one process-wide stream (the draws made "
+            "before the abnormal exit count), fresh treaps of 1500-3000 nodes keep heap order, the height bound and the predicted Cartesian height in both profiles; a call that does not come back is a violation (watchdog).",
     "level_note": "Partial: the bounds height <= 5*log2(n+1)+20 / 3*log2(n+1)+12 are probabilistic statements about the generator and cannot be universal "
                   "theorems; what is proved is the finite family evaluation. Trusted: Coq kernel + vm_compute; Rust executor (its family search checks heap order, sizes, born-with priorities and heights itself); Python "
                   "printer (incl. its prediction of the draws of the process-wide LCG - one draw per node creation of a line, on whichever thread, burnt draws included -, which the executor resets at the start of every line, cross-checked against the Coq model of the generator in "
-                  "every native case without burnt draws; hash and Cartesian-tree height of the predicted stream for the search); sampled correspondence.",
+                  "every native case without burnt draws; hash and Cartesian-tree height of the predicted stream for the search; draw count of a fault event against its probe); the fault-injecting item type of the executor; sampled correspondence.",
     "technique": "Coq proof over Gallina model + vm_compute correspondence batches + implementation-level search",
 }
